@@ -219,8 +219,11 @@ pub fn pick_cfg(rng: &mut Rng, prop: &str, tier_thorough: bool) -> Cfg {
 impl Gen {
     pub fn new(seed: u64, prop: &str, thorough: bool, fault_free: bool) -> Self {
         let mut rng = Rng::new(seed);
-        let mut cfg = pick_cfg(&mut rng, prop, thorough);
-        cfg.adopt_alive = matches!(prop, "C01" | "C03" | "C05");
+        // C07 quantifies over every call sequence: one run in six takes the churn profile of C06
+        // (long histories with the slot table full), with caller faults mixed in
+        let profile = if prop == "C07" && rng.chance(1, 6) { "C06" } else { prop };
+        let mut cfg = pick_cfg(&mut rng, profile, thorough);
+        cfg.adopt_alive = matches!(prop, "C01" | "C03" | "C05" | "C07");
         cfg.judge = Some(prop.to_string());
         // how often the full read-only sweep runs (an observer that looks after every step keeps
         // caches inside the code under test warm)
@@ -231,7 +234,11 @@ impl Gen {
             _ => 1,
         };
         // swarm: every kind keeps its base weight, is damped, or is switched off
-        let base = base_weights(prop);
+        let mut base = base_weights(profile);
+        if profile != prop {
+            // (caller faults come through the Sacrifice episode here: the churning graph itself stays judged)
+            base.extend([(Kind::Damage, 1)]);
+        }
         let mut weights = vec![0_u32; KINDS.len()];
         for (k, w) in base {
             let i = KINDS.iter().position(|x| *x == k).unwrap();
@@ -308,7 +315,7 @@ impl Gen {
         if lens.is_empty() {
             lens = vec![8, 9];
         }
-        let max_steps = match prop {
+        let max_steps = match profile {
             "C06" => {
                 if thorough {
                     rng.range(400, 6_000)
